@@ -118,6 +118,8 @@ def cases(tier, seed):
         ("N21fd", "core12", 4 if q else 6),
         ("H22k2", "core12", 4 if q else 6),
         ("H22k2", "twin", 3),
+        ("H3k2mixfd", "core12", 4 if q else 5),
+        ("H21k2mixfd", "core12", 3 if q else 5),
         ("H22sym", "core8", 3 if q else 5),
         ("H22csr", "core12", 4 if q else 6),
         ("I23", "core12", 3 if q else 5),
